@@ -61,6 +61,14 @@ def wait_kwargs(cond, kind):
             kw["expect"] = ""  # an in-process (snooping) client sees '' as such: no XML in between
         elif cond == "initial":
             kw["initial"] = "n0"
+        elif cond == "check-raises":
+            # a partial check, as applications write them: fine on the events it is meant for, raising on the others
+            def chk(e):
+                if e.new_value in ("m1", "m2"):
+                    return True
+                raise AttributeError("check not applicable to this event (generated)")
+
+            kw["check"] = chk
         else:
             kw["check"] = lambda e: e.new_value in ("m1", "m2")
     else:
@@ -69,6 +77,13 @@ def wait_kwargs(cond, kind):
             kw["expect"] = "Ok"
         elif cond == "initial":
             kw["initial"] = "Idle"
+        elif cond == "check-raises":
+            def chk(e):
+                if e.new_state in ("Ok", "Busy"):
+                    return True
+                raise AttributeError("check not applicable to this event (generated)")
+
+            kw["check"] = chk
         else:
             kw["check"] = lambda e: e.new_state in ("Ok", "Busy")
     return kw
@@ -280,7 +295,7 @@ def grid_blocks(tier):
 arrival_st = st.tuples(st.integers(0, 24), st.sampled_from([0, 0, 0, 1]), st.integers(0, 4)).map(list)
 wait_st = st.fixed_dictionaries(
     {
-        "cond": st.sampled_from(["expect", "initial", "check", "expect-empty"]),
+        "cond": st.sampled_from(["expect", "initial", "check", "expect-empty", "check-raises"]),
         "timeout": st.none() | st.integers(1, 26),
         "poll": st.none() | st.tuples(st.integers(0, 6), st.integers(1, 7)).map(list),
     }
